@@ -30,42 +30,59 @@ def run(chk, tier):
 
 
 def r_diff_months(chk, P, tier):
-    chk.rule("TBL.diff_months", "diff_months clamps the day with the month lengths of the target year (Feb = 29 iff that year has 366 days)", floor=4)
-    fn = ND + "diff_months"
-    n = 0
-    for p in Sym(P, fn).paths():
-        if p.end[0] != "return" or not is_call(p.ret, name=ND + "from_ymd_opt"):
-            continue
-        arrays = [x for t in [p.ret] + [c[1] for c in p.conds] for x in walk_terms(t) if x[0] == "agg" and x[1] == "array" and len(x[4]) == 12]
-        if not arrays:
-            arrays = [v for v in p.env.values() if isinstance(v, tuple) and v and v[0] == "agg" and v[1] == "array" and len(v[4]) == 12]
-        if not arrays:
-            raise AnchorLost("month-length array not found in diff_months")
-        cells = [const_of(x) for x in arrays[0][4]]
-        # the condition that selected feb: ndays(from_year(<target year>)) == 366
-        feb_cond = [c for c in p.conds if c[0][0] == "switch" and c[1][0] == "bin" and c[1][1] in ("Eq", "Ne") and const_of(c[1][3]) == 366]
-        ok = len(feb_cond) == 1
-        leap_branch = None
-        if ok:
-            c = feb_cond[0]
-            truth = (c[2] != 0) if not isinstance(c[2], tuple) else True
-            leap_branch = truth if c[1][1] == "Eq" else not truth
-            lhs = c[1][2]
-            ny = [x for x in find_calls(lhs) if x[1].endswith("YearFlags::from_year")]
-            ok = is_call(unref(lhs), suffix="YearFlags::ndays") and len(ny) == 1 and any(is_call(y, suffix="div_euclid") and const_of(y[2][1]) == 12 for y in walk_terms(ny[0][2][0]))
-            year_arg = p.ret[2][0]
-            ok = ok and ny[0][2][0] == year_arg
-        exp = list(cal.MONTH_DAYS)
-        exp[1] = 29 if leap_branch else 28
-        n += 1
-        chk.expect(ok and cells == exp, "path feb=%s" % cells[1], "diff_months: month lengths %s selected by %s; expected %s chosen by the target year's ndays() == 366" % (
-            cells, [pp(c[1])[:120] for c in feb_cond], exp), loc=P.loc(fn))
-        # month index and year/month split
-        month = p.ret[2][1]
-        ok2 = any(is_call(y, suffix="rem_euclid") and const_of(y[2][1]) == 12 for y in walk_terms(month))
-        chk.expect(ok2, "month split %d" % n, "target month is not months.rem_euclid(12) + 1: %s" % pp(month)[:150], loc=P.loc(fn))
-    chk.expect(n >= 2, "paths", "only %d success paths analysed" % n)
+    """diff_months as a finite map (def-use terms folded, no execution; independent of how the month lengths are written): one representative year per year
+    class x 12 months x days 28..=31 x month deltas around 0, +-1 year; expected: calendar month arithmetic with the day clamped to the target month's length"""
+    from finmap import Folder, show, Unknown
+    from props.c01 import _c, _date, _yof_of, flags_of, INT
+    from rules import table_value
+    chk.rule("TBL.diff_months", "diff_months(date, n) = the same day of month n months away, clamped to that month's length (Feb by the TARGET year), for every year class, month, day 28..=31 and n in -13..=13", floor=4)
+    fo = Folder(P, max_depth=10)
+    tbl = [flags_of(c) for c in table_value(P, INT + "::YEAR_TO_FLAGS")]
 
+    def yof(y, o):
+        return (y << 13) | (o << 4) | tbl[y % 400]
+    reps = {}
+    for y in range(2000, 2400):
+        reps.setdefault(tbl[y % 400], y)
+    # the century years are enumerated as well (a leap rule that ignores the 100/400 exceptions differs only there)
+    for y in (1900, 2000, 2100, 2200, 2300, 2400):
+        reps[("century", y)] = y
+    if tier == "thorough":
+        for y in range(2000, 2400):
+            reps[("all", y)] = y
+    deltas = (-13, -12, -11, -2, -1, 0, 1, 2, 11, 12, 13)
+    bad = {}
+    n = 0
+    fn = ND + "diff_months"
+    for y in sorted(reps.values()):
+        for m in range(1, 13):
+            for d in range(28, cal.days_in_month(y, m) + 1):
+                for k in deltas:
+                    n += 1
+                    tot = y * 12 + (m - 1) + k
+                    ty, tm = tot // 12, tot % 12 + 1
+                    td = min(d, cal.days_in_month(ty, tm))
+                    want = yof(ty, cal.ordinal(ty, tm, td))
+                    try:
+                        got = _yof_of(show(fo.call(fn, [_date(yof(y, cal.ordinal(y, m, d))), _c(k)])))
+                    except Unknown as e:
+                        got = "unknown: %s" % e
+                    if got != want:
+                        key = "clamp to February" if tm == 2 else ("year crossing" if ty != y else "same year")
+                        bad.setdefault(key, ((y, m, d, k), got, want))
+    for key in ("clamp to February", "year crossing", "same year"):
+        chk.expect(key not in bad, key, "diff_months(%s-%02d-%02d, %+d months) = %s, calendar says %s" % (bad[key][0] + (bad[key][1], bad[key][2]) if key in bad else (0, 0, 0, 0, 0, 0)), loc=P.loc(fn), detail_ok="%d evaluations" % n)
+    # lemma for the years not enumerated: the year enters diff_months only through the month split (/ 12, % 12 incl. euclid forms), YearFlags::from_year,
+    # from_ymd_opt and the range tests - no other division, remainder or mask of the year (a hand-rolled leap rule would be one)
+    odd = []
+    for p_ in Sym(P, fn).paths():
+        for t in [c[1] for c in p_.conds] + ([p_.ret] if p_.ret else []) + list(p_.calls):
+            for x in walk_terms(t):
+                if x[0] == "bin" and x[1] in ("Rem", "Div", "BitAnd") and const_of(x[3]) not in (12, None) and any(is_call(y, suffix="::year") or y == ("arg", 1) for y in walk_terms(x[2])):
+                    odd.append(pp(x)[:70])
+                if is_call(x) and str(x[1]).split("::")[-1] in ("rem_euclid", "div_euclid") and len(x[2]) == 2 and const_of(x[2][1]) != 12 and any(is_call(y, suffix="::year") for y in walk_terms(x[2][0])):
+                    odd.append(pp(x)[:70])
+    chk.expect(not odd, "year used only via the month split and YearFlags", "diff_months computes with the year outside the month split / YearFlags::from_year: %s (the class representatives do not cover such a dependence)" % sorted(set(odd))[:3], loc=P.loc(fn))
 
 def r_month_direction(chk, P, tier):
     chk.rule("SIB.months", "checked_add_months passes +months, checked_sub_months -months to diff_months; zero months returns self", floor=4)
